@@ -12,6 +12,7 @@ use std::fmt::Write as _;
 use std::io::Write as _;
 use std::path::PathBuf;
 
+pub mod poolkit;
 pub mod rng;
 pub use rng::Rng;
 
